@@ -117,6 +117,12 @@ ohaszero = z3.Function('ohaszero', OSeq, Bool)
 onormal = z3.Function('onormal', OSeq, Bool)          # every constraint: coefficients >= 0, op in {>=, ==}
 
 
+ishift = z3.Function('ishift', ISeq, Int, ISeq)        # every element plus a constant  (variables x(p) = offset + p of a block)
+preds = z3.Function('preds', Int, Int, ISeq)           # predecessors of vertex v in the abstract digraph gid
+outdeg = z3.Function('outdeg', Int, Int, Int)          # out-degree of vertex v
+gtopo = z3.Function('gtopo', Int, Bool)                # every predecessor list holds vertices 1 <= p < v  (topologically sorted DAG: is_dag())
+gsinkok = z3.Function('gsinkok', Int, Bool)            # out-degree 0  <=>  the vertex is nobody's predecessor (views agree; C16)
+pebwit = z3.Function('pebwit', Asg, Int, Int)          # Skolem: a vertex whose pebbling axiom fails under a
 # --- substitution / distribution (apply_substitution): gadget function, clause distribution ----------------------
 CTab = z3.ArraySort(Int, CSeq)
 gad = z3.Function('gad', Int, Int, CSeq)              # gad(sid, lit): the CNF the gadget function `sid` returns for a literal (pure function)
@@ -144,7 +150,7 @@ FUNCS = dict(tlen=tlen, tcoef=tcoef, tlit=tlit, tunit=tunit, tnegc=tnegc, tset=t
              ilen=ilen, iget=iget, inil=inil, isnoc=isnoc, iapp=iapp, ineg=ineg, haszero=haszero,
              maxof=maxof, minof=minof, maxabs=maxabs, lit_true=lit_true, count=count, ctrue=ctrue,
              clen=clen, cget=cget, cnil=cnil, csnoc=csnoc, capp=capp, ctake=ctake, combs=combs, sat=sat,
-             cmaxabs=cmaxabs, pow2=pow2, chaszero=chaszero, psum=psum, card2=card2, isperm=isperm, sortedperm=sortedperm, invperm=invperm, imapsub=imapsub, zpos=zpos, mpos=mpos, rnbrs=rnbrs, apseq=apseq, negunits=negunits, idxcombs=idxcombs, iflip1=iflip1, iflips=iflips, neqprefix=neqprefix, signvecs=signvecs, sprod=sprod, smul=smul, pfilter=pfilter,
+             cmaxabs=cmaxabs, pow2=pow2, chaszero=chaszero, psum=psum, card2=card2, isperm=isperm, sortedperm=sortedperm, invperm=invperm, imapsub=imapsub, zpos=zpos, mpos=mpos, rnbrs=rnbrs, apseq=apseq, negunits=negunits, idxcombs=idxcombs, iflip1=iflip1, iflips=iflips, neqprefix=neqprefix, signvecs=signvecs, sprod=sprod, smul=smul, pfilter=pfilter, ishift=ishift, preds=preds, outdeg=outdeg, gtopo=gtopo, gsinkok=gsinkok,
              gad=gad, cdist_tab=cdist_tab, cdist=cdist, cdistall=cdistall, cind=cind, satind=satind, aind=aind)
 
 
@@ -286,6 +292,21 @@ def _on_terms(terms_by_decl):
     for (s, k) in terms_by_decl.get('combs', []):
         out.append(cmaxabs(combs(s, k)) <= maxabs(s))
         out.append(z3.Implies(z3.Not(haszero(s)), z3.Not(chaszero(combs(s, k)))))
+    for (sq, o) in terms_by_decl.get('ishift', []):
+        # Seq.lean ishift_*: length, no zero / bounded when the elements are positive and the offset non-negative, identity
+        t = ishift(sq, o)
+        out += [ilen(t) == ilen(sq), z3.Implies(o == 0, t == sq),
+                z3.Implies(z3.And(o >= 0, z3.Or(ilen(sq) == 0, minof(sq) >= 1)), z3.And(z3.Not(haszero(t)), maxabs(t) <= maxabs(sq) + o))]
+    for (sq, i) in terms_by_decl.get('iget', []):
+        if z3.is_app(sq) and sq.decl().name() == 'ishift':
+            out.append(z3.Implies(z3.And(0 <= i, i < ilen(sq.arg(0))), iget(sq, i) == iget(sq.arg(0), i) + sq.arg(1)))
+        # Seq.lean iget_between: every element lies between the minimum and the maximum
+        out.append(z3.Implies(z3.And(0 <= i, i < ilen(sq)), z3.And(minof(sq) <= iget(sq, i), iget(sq, i) <= maxof(sq))))
+    for (gid, v) in terms_by_decl.get('preds', []):
+        P = preds(gid, v)
+        # definition of gtopo on this vertex (Pebbling.lean gtopo_def): predecessors are vertices 1 <= p < v
+        out.append(z3.Implies(z3.And(gtopo(gid), ilen(P) > 0), z3.And(minof(P) >= 1, maxof(P) < v)))
+        out.append(z3.Implies(ilen(P) > 0, maxabs(P) == zmax(maxof(P), -minof(P))))
     sids = []
     for nm in ('cdistall', 'cdist', 'gad'):
         for args in terms_by_decl.get(nm, []):
@@ -610,6 +631,15 @@ def _sem_on_terms(asgs, terms_by_decl):
             if z3.is_app(b0) and b0.decl().name() == 'aind' and b0.arg(0).eq(a):
                 # definition of the induced assignment on variables
                 out.append(z3.Implies(l > 0, lit_true(b0, l) == sat(a, gad(b0.arg(1), l))))
+        for (gid,) in terms_by_decl.get('gtopo', []):
+            # L12 (Pebbling.lean pebbling_unsat, contrapositive with a Skolem vertex): on a topologically sorted DAG with at
+            # least one vertex whose sink view agrees with the predecessor lists, some vertex violates its pebbling axiom
+            # (all predecessors pebbled -> pebbled;  sink -> not pebbled), variable of vertex v = v
+            w = pebwit(a, gid)
+            P = preds(gid, w)
+            ax = z3.And(z3.Implies(count(a, P) == ilen(P), lit_true(a, w)), z3.Implies(outdeg(gid, w) == 0, z3.Not(lit_true(a, w))))
+            out.append(z3.Implies(z3.And(gorder(gid) >= 1, gtopo(gid), gsinkok(gid)),
+                                  z3.And(1 <= w, w <= gorder(gid), z3.Not(ax))))
         for (s, k) in terms_by_decl.get('combs', []):
             # L4 BLAST (Blast.lean): 1<=k<=len s  ->  all k-subsets hit  <->  count >= len-k+1
             out.append(z3.Implies(z3.And(1 <= k, k <= ilen(s)),
